@@ -91,3 +91,15 @@ fn c15_replace_installs_new_log() {
     assert!(LOG[pg / 8].load(Ordering::Relaxed) == 0);
     core::mem::forget(region); core::mem::forget(l1); core::mem::forget(l2);
 }
+
+// a region created after SET_LOG_BASE starts with NewBitmap::with_len's bitmap: no inner log, writes are not recorded
+#[kani::proof]
+#[kani::unwind(4)]
+fn c15_fresh_region_bitmap_unlogged() {
+    let b = <BitmapMmapRegion as NewBitmap>::with_len(kani::any());
+    assert!(b.inner.read().unwrap().is_none() && b.base_address == 0);
+    let off: usize = kani::any();
+    b.mark_dirty(off, 1);
+    assert!(!b.dirty_at(off));
+    core::mem::forget(b);
+}
